@@ -65,7 +65,9 @@ def mergeMap (m : UMap) : UMap → Option UMap
 
 /-- results: the dict, or the exception raised, or the model's fuel running out -/
 inductive UR
-  | ok (m : UMap) | attrError | typeError | indexError | notImpl | fuel
+  | ok (m : UMap) | attrError | typeError | indexError | notImpl
+  | kfuel   -- `isSubtype` / `getBoundRec` ran out of *their* fuel (never on regular types, C06/C07)
+  | fuel    -- the fuel of `unifyF` itself ran out (never with `unifyFuel`, `Proofs/UnifyFuel.lean`)
 deriving Repr, Inhabited
 
 /-- `type(t)` as far as `type(t1) != type(t2)` can tell -/
@@ -117,7 +119,7 @@ end
 
 def ofRes (r : Res) (yes no : UR) : UR :=
   match r with
-  | .yes => yes | .no => no | .typeError => .typeError | .attrError => .attrError | .fuel => .fuel
+  | .yes => yes | .no => no | .typeError => .typeError | .attrError => .attrError | .fuel => .kfuel
 
 /-- the block `if is_type_var2:` -/
 def varFinal (fac : Option Ty) (t1 t2 : Ty) : UR :=
@@ -125,18 +127,18 @@ def varFinal (fac : Option Ty) (t1 t2 : Ty) : UR :=
   | .ok none => .ok [(t2, some t1)]
   | .ok (some b) => ofRes (isSubtype t1 b) (.ok [(t2, some t1)]) (.ok [])
   | .attrError => .attrError
-  | .fuel => .fuel
+  | .fuel => .kfuel
 
 /-- the two blocks `if is_type_var and is_type_var2:` / `if is_type_var2:` (`t2` a type variable) -/
 def varCase (fac : Option Ty) (t1 t2 : Ty) : UR :=
   if t1.isTVar then
     match getBoundRec t1 fac with
     | .attrError => .attrError
-    | .fuel => .fuel
+    | .fuel => .kfuel
     | .ok b1 =>
       match getBoundRec t2 fac with
       | .attrError => .attrError
-      | .fuel => .fuel
+      | .fuel => .kfuel
       | .ok none => .ok [(t2, some t1)]
       | .ok (some b2) =>
         match b1 with
